@@ -2,6 +2,7 @@ package main
 
 import (
 	"os"
+	"regexp"
 	"fmt"
 	"go/types"
 	"strings"
@@ -445,6 +446,34 @@ func (m *Machine) intrinsic(s *State, f *Frame, x *ssa.Call, name string, callee
 		f.env[x] = Ptr{obj: s.alloc(m.zero(et))}
 		return nil, true
 	case strings.HasSuffix(name, ").ReturnToVTPool") || strings.HasSuffix(name, ").ResetVT"):
+		return nil, true
+	case name == "regexp.MustCompile":
+		pat, ok := m.toGo(s, args[0], types.Typ[types.String])
+		if !ok {
+			s.fail("unsupported", "regexp with symbolic pattern")
+			return nil, true
+		}
+		f.env[x] = Ptr{obj: s.alloc(RegexV{pat.(string)})}
+		return nil, true
+	case name == "(*regexp.Regexp).FindStringSubmatch":
+		rp := args[0].(Ptr)
+		rv, ok := s.load(rp).(RegexV)
+		str, ok2 := m.toGo(s, args[1], types.Typ[types.String])
+		if !ok || !ok2 {
+			s.fail("unsupported", "regexp on symbolic string")
+			return nil, true
+		}
+		m.stubs["regexp on concrete strings: evaluated natively"]++
+		parts := regexp.MustCompile(rv.pat).FindStringSubmatch(str.(string))
+		if parts == nil {
+			f.env[x] = SliceV{}
+			return nil, true
+		}
+		arr := ArrayV{n: len(parts), def: StrV{}, elems: map[int]Value{}}
+		for i, p := range parts {
+			arr.elems[i] = m.mkStr(p)
+		}
+		f.env[x] = SliceV{obj: s.alloc(arr), len: len(parts), cap: len(parts)}
 		return nil, true
 	case name == "encoding/json.Marshal":
 		v := args[0].(IfaceV)
@@ -947,3 +976,5 @@ func (m *Machine) timeType(x *ssa.Call) types.Type {
 	}
 	return m.timeT
 }
+
+type RegexV struct{ pat string }
